@@ -3,7 +3,7 @@
    integral over theta (is_RInt, Coquelicot) uses the standard Reals axioms (see Print Assumptions). *)
 From Coq Require Import Sorting.Sorted Reals Qreals.
 From Coquelicot Require Import Coquelicot.
-From V Require Import lib.Tree gen.Gen_C11_kern model.C11 proofs.C11 proofs.C10_RInt proofs.C11_RInt.
+From V Require Import lib.Tree gen.Gen_C11_kern model.C11 proofs.C11 proofs.C11_ext proofs.C10_RInt proofs.C11_RInt.
 Open Scope Q_scope.
 
 (* in_over f o t = (o <= t < f), in_under f o t = (f <= t < o); es_* = penalty sizes (model/C11.v);
@@ -132,9 +132,99 @@ Theorem C11_murphy_integrates : forall alpha a f o lo hi : Q, 0 <= a -> lo <= f 
 Proof. exact murphy_integrates. Qed.
 Print Assumptions C11_murphy_integrates.
 
+(* =====================  extended reals: +-inf forecasts, observations, thetas (Q-level, axiom-free)  ===================== *)
+(* ---- the same on the extended reals: forecast, observation and theta may be +-inf (NaN is the missing value, see C11_cell_nan).
+        xin_over f o t = (obs <= theta < fcst), xin_under f o t = (fcst <= theta < obs) in the order of the extended reals;
+        esx_* = `if region then weight * size else 0` with the sizes 1 / min(theta - obs, a) / theta - obs in IEEE arithmetic
+        (model/C11_spec.v).  size_defined o t excludes only obs = theta = -inf, where theta - obs is inf - inf. ---- *)
+Theorem C11_elementary_quantile_extended : forall (alpha : Q) (f o t : xv), xisnan f = false -> xisnan o = false -> xisnan t = false ->
+  let k := gen_murphy_quantile f o t (XFin alpha) in
+  let r := gen_murphy_merge (fst k) (snd k) f in
+  m_over r =x= esx_quantile_over alpha f o t /\ m_under r =x= esx_quantile_under alpha f o t /\
+  m_total r =x= xadd (esx_quantile_over alpha f o t) (esx_quantile_under alpha f o t).
+Proof. exact quantile_x. Qed.
+Print Assumptions C11_elementary_quantile_extended.
+
+Theorem C11_elementary_huber_extended : forall (alpha a : Q) (f o t : xv), 0 < alpha < 1 ->
+  xisnan f = false -> xisnan o = false -> xisnan t = false -> size_defined o t = true ->
+  let k := gen_murphy_huber f o t (XFin alpha) (XFin a) in
+  let r := gen_murphy_merge (fst k) (snd k) f in
+  m_over r =x= esx_huber_over alpha a f o t /\ m_under r =x= esx_huber_under alpha a f o t /\
+  m_total r =x= xadd (esx_huber_over alpha a f o t) (esx_huber_under alpha a f o t).
+Proof. exact huber_x. Qed.
+Print Assumptions C11_elementary_huber_extended.
+
+Theorem C11_elementary_expectile_extended : forall (alpha : Q) (f o t : xv), 0 < alpha < 1 ->
+  xisnan f = false -> xisnan o = false -> xisnan t = false -> size_defined o t = true ->
+  let k := gen_murphy_expectile f o t (XFin alpha) in
+  let r := gen_murphy_merge (fst k) (snd k) f in
+  m_over r =x= esx_expectile_over alpha f o t /\ m_under r =x= esx_expectile_under alpha f o t /\
+  m_total r =x= xadd (esx_expectile_over alpha f o t) (esx_expectile_under alpha f o t).
+Proof. exact expectile_x. Qed.
+Print Assumptions C11_elementary_expectile_extended.
+
+(* the extended definition is the rational one on rational arguments ... *)
+Theorem C11_extended_agrees_on_rationals : forall alpha a f o t : Q,
+  esx_quantile_over alpha (XFin f) (XFin o) (XFin t) =x= XFin (es_quantile_over alpha f o t) /\
+  esx_quantile_under alpha (XFin f) (XFin o) (XFin t) =x= XFin (es_quantile_under alpha f o t) /\
+  esx_huber_over alpha a (XFin f) (XFin o) (XFin t) =x= XFin (es_huber_over alpha a f o t) /\
+  esx_huber_under alpha a (XFin f) (XFin o) (XFin t) =x= XFin (es_huber_under alpha a f o t) /\
+  esx_expectile_over alpha (XFin f) (XFin o) (XFin t) =x= XFin (es_expectile_over alpha f o t) /\
+  esx_expectile_under alpha (XFin f) (XFin o) (XFin t) =x= XFin (es_expectile_under alpha f o t).
+Proof. exact esx_fin. Qed.
+Print Assumptions C11_extended_agrees_on_rationals.
+
+(* ... and for an infinite forecast with rational obs / theta it says: +inf over-forecasts every theta >= obs, -inf under-forecasts
+   every theta < obs, with the penalty sizes of the rational definition (never 0 inside the region) *)
+Theorem C11_infinite_forecast : forall alpha a o t : Q,
+  esx_quantile_over alpha (XInf true) (XFin o) (XFin t) =x= XFin (if Qle_bool o t then 1 - alpha else 0) /\
+  esx_quantile_under alpha (XInf true) (XFin o) (XFin t) =x= X0 /\
+  esx_quantile_over alpha (XInf false) (XFin o) (XFin t) =x= X0 /\
+  esx_quantile_under alpha (XInf false) (XFin o) (XFin t) =x= XFin (if Qltb t o then alpha else 0) /\
+  esx_huber_over alpha a (XInf true) (XFin o) (XFin t) =x= XFin (if Qle_bool o t then (1 - alpha) * Qmin' (t - o) a else 0) /\
+  esx_huber_under alpha a (XInf true) (XFin o) (XFin t) =x= X0 /\
+  esx_huber_over alpha a (XInf false) (XFin o) (XFin t) =x= X0 /\
+  esx_huber_under alpha a (XInf false) (XFin o) (XFin t) =x= XFin (if Qltb t o then alpha * Qmin' (o - t) a else 0) /\
+  esx_expectile_over alpha (XInf true) (XFin o) (XFin t) =x= XFin (if Qle_bool o t then (1 - alpha) * (t - o) else 0) /\
+  esx_expectile_under alpha (XInf true) (XFin o) (XFin t) =x= X0 /\
+  esx_expectile_over alpha (XInf false) (XFin o) (XFin t) =x= X0 /\
+  esx_expectile_under alpha (XInf false) (XFin o) (XFin t) =x= XFin (if Qltb t o then alpha * (o - t) else 0).
+Proof. exact esx_infinite_forecast. Qed.
+Print Assumptions C11_infinite_forecast.
+
+(* one cell of murphy_score (model) with non-NaN extended-real theta, fcst, obs: the extended definition *)
+Theorem C11_cell_extended : forall (alpha a : Q) (t f o : xv), 0 < alpha < 1 -> xisnan t = false -> xisnan f = false -> xisnan o = false ->
+  (let r := murphy_point "quantile" (XFin alpha) (Some (XFin a)) t f o in
+   m_over r =x= esx_quantile_over alpha f o t /\ m_under r =x= esx_quantile_under alpha f o t /\
+   m_total r =x= xadd (esx_quantile_over alpha f o t) (esx_quantile_under alpha f o t)) /\
+  (size_defined o t = true ->
+   (let r := murphy_point "huber" (XFin alpha) (Some (XFin a)) t f o in
+    m_over r =x= esx_huber_over alpha a f o t /\ m_under r =x= esx_huber_under alpha a f o t /\
+    m_total r =x= xadd (esx_huber_over alpha a f o t) (esx_huber_under alpha a f o t)) /\
+   (let r := murphy_point "expectile" (XFin alpha) (Some (XFin a)) t f o in
+    m_over r =x= esx_expectile_over alpha f o t /\ m_under r =x= esx_expectile_under alpha f o t /\
+    m_total r =x= xadd (esx_expectile_over alpha f o t) (esx_expectile_under alpha f o t))).
+Proof. exact murphy_point_x. Qed.
+Print Assumptions C11_cell_extended.
+
+(* the same with infinite forecasts / observations among the data (quantile): an infinite value is no kink at any finite theta *)
+Theorem C11_thetas_cover_quantile_extended : forall fcsts obs huber_a delta T (alpha : Q) (f o : xv) (t1 t : Q),
+  murphy_thetas_m fcsts obs "quantile" huber_a delta = Ok T ->
+  In f (concat fcsts) -> In o obs -> t1 <= t ->
+  (forall q, In (XFin q) T -> ~ (t1 < q /\ q <= t)) ->
+  esx_quantile_over alpha f o (XFin t) =x= esx_quantile_over alpha f o (XFin t1) /\
+  esx_quantile_under alpha f o (XFin t) =x= esx_quantile_under alpha f o (XFin t1).
+Proof. exact thetas_cover_quantile_x. Qed.
+Print Assumptions C11_thetas_cover_quantile_extended.
+
 (* non-vacuity *)
 Example C11_ex_thetas : rmap (map xred) (murphy_thetas_m [[XFin 1; XNaN; XFin 3]; [XFin 2]] [XFin 2; XFin (1#2)] "huber" (Some (XFin (1#2))) (Some (XFin (1#4))))
   = Ok (map XFin [0; 1#2; 3#4; 1; 3#2; 7#4; 2; 5#2; 11#4; 3]).
 Proof. vm_compute. reflexivity. Qed.
 Example C11_ex_boundary : es_quantile (1#4) 3 1 1 == 3#4 /\ es_quantile (1#4) 3 1 3 == 0 /\ es_quantile (1#4) 1 3 1 == 1#4 /\ es_quantile (1#4) 1 3 3 == 0.
 Proof. repeat split; vm_compute; reflexivity. Qed.
+Example C11_ex_infinite_forecast :
+  let k := gen_murphy_quantile (XInf true) (XFin 1) (XFin 2) (XFin (3#10)) in
+  let h := gen_murphy_huber (XInf true) (XFin 1) (XFin 2) (XFin (3#10)) (XFin (1#2)) in
+  m_over (gen_murphy_merge (fst k) (snd k) (XInf true)) =x= XFin (7#10) /\ m_over (gen_murphy_merge (fst h) (snd h) (XInf true)) =x= XFin (7#20).
+Proof. split; vm_compute; reflexivity. Qed.
